@@ -292,6 +292,7 @@ func classify(st *stats.Collector, c *tcase, refs []*refResult) bool {
 		cl(in.leaves > 0, "leave-executed")
 		cl(in.iterates > 0, "iterate-executed")
 		cl(in.leaveBlocks > 0, "leave-block")
+		cl(in.outerJumps > 0, "jump-to-outer-label")
 		cl(in.contFired > 0, "continue-handler-fired")
 		cl(in.exitFired > 0, "exit-handler-fired")
 		cl(in.caseNotFound > 0, "case-not-found")
